@@ -69,6 +69,72 @@ Definition marshal_header_names (h : dynheader) (buf : wire_log) : outcome wire_
   do buf <- if_some (dh_error_name h) marshal_header_errorname buf;
   Ok buf.
 
+(* message_builder.rs: enum MessageType *)
+Inductive mtype := MCall | MReply | MError | MSignal | MInvalid.
+
+(* marshal.rs: fn marshal_header, `let has_required_fields = match msg.typ { .. }` (fix 7d0a594);
+   rs = msg.dynheader.response_serial.is_some() *)
+Definition has_required_fields (typ : mtype) (rs : bool) (h : dynheader) : bool :=
+  let some (o : option (list N)) := match o with Some _ => true | None => false end in
+  match typ with
+  | MCall => some (dh_object h) && some (dh_member h)
+  | MSignal => some (dh_object h) && some (dh_interface h) && some (dh_member h)
+  | MError => some (dh_error_name h) && rs
+  | MReply => rs
+  | MInvalid => false
+  end.
+
+(* marshal.rs: fn marshal_header, as far as names are concerned: Invalid type refused, required fields checked,
+   then the names are validated and written in order *)
+Definition marshal_header_msg (typ : mtype) (rs : bool) (h : dynheader) : outcome wire_log :=
+  match typ with
+  | MInvalid => Err
+  | _ => if negb (has_required_fields typ rs h) then Err else marshal_header_names h []
+  end.
+
+(* ------------------------------------------------------------ receive side: names read from the wire.
+   `read` is the result of cursor.read_str / ctx.read_str (the string decoder is C03's subject). *)
+(* unmarshal.rs: unmarshal_header_field, arm 1: let objpath = cursor.read_str(..)?; validate_object_path(objpath)?; Ok(Path(..)) *)
+Definition unmarshal_header_path (read : outcome (list N)) : outcome (list N) :=
+  do s <- read; do _ <- validate_object_path s; Ok s.
+(* arm 2: validate_interface *)
+Definition unmarshal_header_interface (read : outcome (list N)) : outcome (list N) :=
+  do s <- read; do _ <- validate_interface s; Ok s.
+(* arm 3: validate_membername *)
+Definition unmarshal_header_member (read : outcome (list N)) : outcome (list N) :=
+  do s <- read; do _ <- validate_membername s; Ok s.
+(* arm 4: validate_errorname *)
+Definition unmarshal_header_errorname (read : outcome (list N)) : outcome (list N) :=
+  do s <- read; do _ <- validate_errorname s; Ok s.
+(* arm 6: validate_busname *)
+Definition unmarshal_header_destination (read : outcome (list N)) : outcome (list N) :=
+  do s <- read; do _ <- validate_busname s; Ok s.
+(* arm 7: validate_busname *)
+Definition unmarshal_header_sender (read : outcome (list N)) : outcome (list N) :=
+  do s <- read; do _ <- validate_busname s; Ok s.
+
+(* the decoder of the name field with the given header field code *)
+Definition name_field_decoder (code : N) : option (outcome (list N) -> outcome (list N)) :=
+  if code =? 1 then Some unmarshal_header_path
+  else if code =? 2 then Some unmarshal_header_interface
+  else if code =? 3 then Some unmarshal_header_member
+  else if code =? 4 then Some unmarshal_header_errorname
+  else if code =? 6 then Some unmarshal_header_destination
+  else if code =? 7 then Some unmarshal_header_sender
+  else None.
+
+(* unmarshal/traits/base.rs: impl Unmarshal for ObjectPath<S>: let val = <S as Unmarshal>::unmarshal(ctx)?;
+   let path = ObjectPath::new(val)?; Ok(path) *)
+Definition objectpath_unmarshal (val : outcome (list N)) : outcome (list N) :=
+  do v <- val; objectpath_new v.
+(* unmarshal/param/base.rs: signature::Base::ObjectPath arm: let string = ctx.read_str()?;
+   validate_object_path(string)?; Ok(params::Base::ObjectPath(string.into())) *)
+Definition unmarshal_param_objectpath (read : outcome (list N)) : outcome (list N) :=
+  do s <- read; do _ <- validate_object_path s; Ok s.
+(* validate_raw.rs: signature::Base::ObjectPath arm: unmarshal_str(..)?; validate_object_path(string)? *)
+Definition validate_raw_objectpath (read : outcome (list N)) : outcome unit :=
+  do s <- read; validate_object_path s.
+
 (* ---------------------------------------------------------------- specification side *)
 (** what a conforming peer requires of the string in header field [code] (D-Bus spec, header fields
     table): 1 PATH object path, 2 INTERFACE, 3 MEMBER, 4 ERROR_NAME, 6 DESTINATION and 7 SENDER bus names *)
@@ -182,11 +248,13 @@ Qed.
 
 (* every way of constructing the wrapper, then marshalling it with the typed API *)
 Definition objectpath_ctor (f : list N -> outcome (list N)) : Prop :=
-  f = objectpath_new \/ f = objectpath_try_from_str \/ f = objectpath_try_from_string.
+  f = objectpath_new \/ f = objectpath_try_from_str \/ f = objectpath_try_from_string \/
+  f = (fun s => objectpath_unmarshal (Ok s)).        (* decoding a body value that holds the string s *)
 
 Lemma objectpath_ctor_spec f s p : objectpath_ctor f -> (f s = Ok p <-> (ValidPath s /\ p = s)).
 Proof.
-  intros [Hf | [Hf | Hf]]; subst f; unfold objectpath_try_from_str, objectpath_try_from_string; (split;
+  intros [Hf | [Hf | [Hf | Hf]]]; subst f; unfold objectpath_try_from_str, objectpath_try_from_string, objectpath_unmarshal;
+    cbn [bind]; (split;
     [intros H; split; [apply objectpath_new_spec; eauto|exact (objectpath_new_value s p H)]
     |intros [Hv ->]; apply objectpath_new_spec in Hv; destruct Hv as [p Hp];
      now rewrite (objectpath_new_value s p Hp) in Hp]).
@@ -206,6 +274,59 @@ Proof.
   intros Hf H. apply (objectpath_ctor_spec f s p Hf) in H. destruct H as [Hv ->].
   unfold marshal_objectpath_typed, objectpath_to_owned.
   rewrite (marshal_str_nonnul s (valid_path_ascii s Hv)). auto.
+Qed.
+
+(* ---- receive side *)
+Lemma read_validate_spec (v : list N -> outcome unit) (V : list N -> Prop) (r : outcome (list N)) s :
+  (forall x, v x = Ok tt <-> V x) ->
+  ((do x <- r; do _ <- v x; Ok x) = Ok s <-> (r = Ok s /\ V s)).
+Proof.
+  intros Hv. destruct r as [x| | | |]; cbn [bind]; try (split; [discriminate|intros [H _]; discriminate]).
+  specialize (Hv x). destruct (v x) as [[]| | | |]; cbn [bind].
+  - split; [intros H; inversion H; subst; split; [reflexivity|now apply Hv]|intros [H _]; now inversion H].
+  - split; [discriminate|]. intros [H Hs]. inversion H; subst. apply Hv in Hs. discriminate.
+  - split; [discriminate|]. intros [H Hs]. inversion H; subst. apply Hv in Hs. discriminate.
+  - split; [discriminate|]. intros [H Hs]. inversion H; subst. apply Hv in Hs. discriminate.
+  - split; [discriminate|]. intros [H Hs]. inversion H; subst. apply Hv in Hs. discriminate.
+Qed.
+
+Theorem name_field_decoder_spec code f r s :
+  name_field_decoder code = Some f -> (f r = Ok s <-> (r = Ok s /\ FieldValid (code, s))).
+Proof.
+  unfold name_field_decoder, FieldValid.
+  destruct (code =? 1); [intros H; inversion H; apply read_validate_spec, validate_object_path_spec|].
+  destruct (code =? 2); [intros H; inversion H; apply read_validate_spec, validate_interface_spec|].
+  destruct (code =? 3); [intros H; inversion H; apply read_validate_spec, validate_membername_spec|].
+  destruct (code =? 4); [intros H; inversion H; apply read_validate_spec, validate_errorname_spec|].
+  destruct (code =? 6); [intros H; inversion H; apply read_validate_spec, validate_busname_spec|].
+  destruct (code =? 7); [intros H; inversion H; apply read_validate_spec, validate_busname_spec|].
+  discriminate.
+Qed.
+
+Theorem path_decoders_spec r s :
+  (objectpath_unmarshal r = Ok s <-> (r = Ok s /\ ValidPath s)) /\
+  (unmarshal_param_objectpath r = Ok s <-> (r = Ok s /\ ValidPath s)) /\
+  (validate_raw_objectpath r = Ok tt <-> exists x, r = Ok x /\ ValidPath x).
+Proof.
+  split; [|split].
+  - unfold objectpath_unmarshal. destruct r as [x| | | |]; cbn [bind]; try (split; [discriminate|intros [H _]; discriminate]).
+    rewrite (objectpath_ctor_spec objectpath_new x s (or_introl eq_refl)).
+    split; [intros [Hv ->]; auto|intros [H Hv]; inversion H; subst; auto].
+  - apply read_validate_spec, validate_object_path_spec.
+  - unfold validate_raw_objectpath. destruct r as [x| | | |]; cbn [bind];
+      try (split; [discriminate|intros (y & H & _); discriminate]).
+    rewrite validate_object_path_spec. split; [intros H; eauto|intros (y & H & Hv); inversion H; now subst].
+Qed.
+
+Theorem marshal_header_msg_spec typ rs h w :
+  marshal_header_msg typ rs h = Ok w <->
+  (typ <> MInvalid /\ has_required_fields typ rs h = true /\ w = names_of h /\ Forall FieldValid (names_of h)).
+Proof.
+  unfold marshal_header_msg.
+  destruct typ; try (destruct (has_required_fields _ rs h) eqn:E; cbn [negb];
+    [rewrite marshal_header_names_spec; cbn [app]; split; [intros [-> Hv]; repeat split; auto; discriminate|intros (_ & _ & -> & Hv); auto]
+    |split; [discriminate|intros (_ & H & _); discriminate]]).
+  split; [discriminate|intros [H _]; congruence].
 Qed.
 
 Lemma marshal_header_names_total h buf : ok_or_err (marshal_header_names h buf).
